@@ -88,10 +88,92 @@ def driver_input(progs):
         budgets = ",".join(str(r[0]) for r in res["runs"])
         ks = ",".join(str(pr[0]) for pr in res["probes"])
         lines.append(f"{i}\t{budgets}\t{res['pb']}\t{ks}\t{res['trace']}")
+        for j, b in enumerate(res.get("blocks", [])):
+            if b["runs"]:
+                lines.append(f"{i}.b{j}\t{','.join(str(r[0]) for r in b['runs'])}\t0\t\t{b['trace']}")
+        for j, v in enumerate(res.get("variants", [])):
+            if v["runs"]:
+                tr = res["trace"] if v["same_trace"] else v["trace"]
+                lines.append(f"{i}.v{j}\t{','.join(str(r[0]) for r in v['runs'])}\t0\t\t{tr}")
     return "\n".join(lines) + "\n"
 
 
-def check_program(r, case, p, res, model):
+def check_side_runs(r, case, label, thr, runs, model, unl_ok, has_levels=True):
+    """oracle + correspondence for a short list of runs [B, tag, c, rem, n, mismatch] of one evaluation"""
+    cons = set()
+    for (b, tag, c, rem, n, mismatch) in runs:
+        if b < thr and not is_out_of_fuel(tag):
+            r.oracle_failure(case, f"{label}: budget {b} < threshold {thr}: {tag[:160]} instead of out-of-fuel", f"{label}:below:{tag.split(':')[0]}")
+        if b >= thr and tag != "same":
+            r.oracle_failure(case, f"{label}: budget {b} >= threshold {thr}: {tag[:160]} instead of the unlimited result", f"{label}:above:{':'.join(tag.split(':')[:2])}")
+        if tag == "same" and c is not None:
+            if c + rem != b:
+                r.oracle_failure(case, f"{label}: budget {b}: fuel_levels = ({c}, {rem}) do not add up", f"{label}:levels-sum")
+            cons.add(c)
+    if len(cons) > 1:
+        r.oracle_failure(case, f"{label}: consumed fuel depends on the budget: {sorted(cons)[:4]}", f"{label}:consumed-varies")
+    if len(cons) == 1 and unl_ok and not (next(iter(cons)) <= thr <= next(iter(cons)) + 1):
+        r.oracle_failure(case, f"{label}: threshold {thr} but {next(iter(cons))} consumed", f"{label}:threshold-vs-consumed")
+    if model is not None:
+        mthr, mtotal, mruns, _ = model
+        if mthr != thr:
+            r.model_disagreement(case, f"{label}: thr={thr}", f"thr={mthr}")
+        for (b, tag, c, rem, n, mismatch), (mb, mst, mc, mr, mn) in zip(runs, mruns):
+            st = "ok" if tag == "same" else "OutOfFuel" if is_out_of_fuel(tag) else tag
+            if tag == "same" and c is not None and unl_ok:
+                impl, mod = (b, st, c, rem, n), (mb, mst, mc, mr, mn)
+            else:
+                impl, mod = (b, st, n - 1 if st == "OutOfFuel" else n), (mb, mst, mn)
+            if impl != mod:
+                r.model_disagreement(case, f"{label}: run {impl}", f"run {mod}")
+            if mismatch and (tag == "same" or is_out_of_fuel(tag)):
+                r.model_disagreement(case, f"{label}: budget {b}: dispatched instructions are not a prefix of the unlimited trace", "prefix")
+    return cons
+
+
+def check_extras(r, case, p, res, models, idx, thr, main_consumed):
+    unl_ok = res["unl"]["t"] == "ok"
+    for e in res.get("entries", []):
+        name = e["name"]
+        r.hist["entry_point"][name] += 1
+        r.count(case + name, thr > 0, n=len(e["runs"]))
+        if e["unl_mismatch"]:
+            r.model_disagreement(case, f"entry point {name} executes other instructions than render_captured", "same trace")
+            continue
+        if e["unmetered"]:
+            for (b, tag, c, rem, n, mismatch) in e["runs"]:
+                if tag != "same" or c is not None:
+                    r.oracle_failure(case, f"set_fuel(Some({b})) followed by set_fuel(None): {tag[:120]} / levels {c} instead of an unmetered render", "config:set-none-still-metered")
+            continue
+        cons = check_side_runs(r, case, "entry:" + name, thr, e["runs"], None, unl_ok)
+        if cons and main_consumed is not None and cons != {main_consumed}:
+            r.oracle_failure(case, f"entry point {name} consumes {sorted(cons)} but render_captured {main_consumed}", "entry:" + name + ":consumption-differs")
+        for (b, tag, c, rem, n, mismatch) in e["runs"]:
+            if mismatch and (tag == "same" or is_out_of_fuel(tag)):
+                r.model_disagreement(case, f"entry point {name}, budget {b}: dispatched instructions are not a prefix of the unlimited trace", "prefix")
+    for j, b in enumerate(res.get("blocks", [])):
+        r.hist["entry_point"]["new_state.render_block"] += 1
+        if b["thr"] is None:
+            r.oracle_failure(case, f"new_state().render_block({b['name']}): no budget up to 2^22 reproduces the unmetered result", "entry:render_block:no-threshold")
+            continue
+        r.count(case + "block" + b["name"], b["thr"] > 0, n=len(b["runs"]))
+        check_side_runs(r, case, "entry:new_state.render_block", b["thr"], b["runs"], models.get(f"{idx}.b{j}"), True)
+    for j, v in enumerate(res.get("variants", [])):
+        r.hist["env_variant"][v["name"] + (":same-trace" if v["same_trace"] else ":other-trace")] += 1
+        if v["thr"] is None:
+            r.oracle_failure(case, f"environment variant {v['name']}: no budget up to 2^22 reproduces the unlimited result", f"variant:{v['name']}:no-threshold")
+            continue
+        r.count(case + "variant" + v["name"], v["thr"] > 0, n=len(v["runs"]))
+        cons = check_side_runs(r, case, "variant:" + v["name"], v["thr"], v["runs"], models.get(f"{idx}.v{j}"), unl_ok)
+        if v["same_trace"]:
+            if v["thr"] != thr:
+                r.oracle_failure(case, f"environment variant {v['name']} executes the same instructions but has threshold {v['thr']} instead of {thr}", f"variant:{v['name']}:threshold-differs-for-same-trace")
+            if cons and main_consumed is not None and cons != {main_consumed}:
+                r.oracle_failure(case, f"environment variant {v['name']} executes the same instructions but consumes {sorted(cons)} instead of {main_consumed}", f"variant:{v['name']}:consumption-differs-for-same-trace")
+
+
+def check_program(r, case, p, res, models, idx):
+    model = models.get(str(idx))
     """oracle (property on the engine's results) + correspondence (engine vs Lean model)"""
     fam = p["id"].split(":")[0] + (":" + p["id"].split(":")[1] if p["id"].count(":") >= 2 else "")
     r.hist["family"][p["id"].split(":")[0]] += 1
@@ -110,7 +192,10 @@ def check_program(r, case, p, res, model):
     trace = res["trace"].split()
     thr = res.get("thr")
     if thr is None:
-        r.oracle_failure(case, "no budget up to 2^22 reproduces the unlimited result", "no-threshold:" + fam)
+        t = res.get("no_thr_tag", "?")
+        dep = " and two sufficient-looking budgets 2^40, 2^40+1 give different results" if res.get("no_thr_budget_dependent") else ""
+        r.oracle_failure(case, f"no budget up to 2^22 reproduces the unlimited result; budget 2^40 gives {t[:120]}{dep}",
+                         f"no-threshold:{t.split(':')[0]}:" + fam)
         return
     runs = res["runs"]
     r.hist["thr_bucket"][min(thr // 50 * 50, 1000)] += 1
@@ -159,6 +244,7 @@ def check_program(r, case, p, res, model):
         c = next(iter(consumed_ok))
         if not (c <= thr <= c + 1):
             r.oracle_failure(case, f"threshold {thr} but the successful render reports {c} consumed (a budget above the consumption must suffice, one below must not)", "threshold-vs-consumed:" + fam)
+    check_extras(r, case, p, res, models, idx, thr, next(iter(consumed_ok)) if len(consumed_ok) == 1 else None)
     if res["rep"] != "ok":
         r.oracle_failure(case, f"repeating the render with the same budget gives a different result/levels ({res['rep']})", "repeat")
 
@@ -173,6 +259,8 @@ def check_program(r, case, p, res, model):
         return
     for (b, tag, c, rem, n, *_rest), m in zip(runs, mruns):
         mb, mst, mc, mr, mn = m
+        if tag == "diff-captured-debug":
+            tag = "same"  # reported by the oracle; the accounting is compared as usual
         impl_st = "ok" if tag == "same" else "OutOfFuel" if is_out_of_fuel(tag) else tag
         if tag == "same" and unl["t"] == "ok" and p["mode"] == "template":
             impl = (b, "ok", c, rem, n)
@@ -239,7 +327,7 @@ def parse_model(lines):
             if x:
                 k, c, rem = x.split(":")
                 probes.append((int(k), int(c), int(rem)))
-        out[int(f[0])] = (int(f[1]), int(f[2]), runs, probes)
+        out[f[0]] = (int(f[1]), int(f[2]), runs, probes)
     return out
 
 
@@ -256,7 +344,7 @@ def run(r):
                      "(limited run = prefix of the unlimited run) is validated on every scanned render, not proved",
                      "budgets between thr+8 and 2^31 and between the listed extremes behave like the model (proved for the model for every budget)",
                      "programs that panic or differ between two unlimited renders are outside the property (none generated)"]
-    r.regen_tables(["C13_FUEL_COSTS", "C13_FUEL_USES", "C13_TRACK_SITE"])
+    r.regen_tables(["C13_FUEL_COSTS", "C13_FUEL_USES", "C13_TRACK_SITE", "C13_FUEL_READERS", "C13_ENTRY_CALLS"])
     r.lean_prove("MJ.Props.C13", "MJ/Audit/C13.lean", extra_targets=["drive_c13"])
     exe = r.cargo_build("c13")
     if exe is None:
@@ -268,10 +356,10 @@ def run(r):
     progs = parse(out)
     lines = r.driver("drive_c13", driver_input(progs))
     model = parse_model(lines) if lines is not None else {}
-    if lines is not None and len(model) != sum(1 for _, _, res in progs if "runs" in res):
+    if lines is not None and sum(1 for k in model if "." not in k) != sum(1 for _, _, res in progs if "runs" in res):
         r.broken.append("model driver output does not line up with the harness cases")
     for i, (case, p, res) in enumerate(progs):
-        check_program(r, case, p, res, model.get(i))
+        check_program(r, case, p, res, model, i)
         if i % 45 == 0 and "runs" in res:
             r.sample({"id": p["id"], "templates": p["templates"], "thr": res["thr"], "unlimited": res["unl"],
                       "runs_first": res["runs"][:3], "runs_last": res["runs"][-2:]})
@@ -292,7 +380,7 @@ def replay(r, path):
         model = parse_model(lines or [])
         case, p, res = progs[0]
         print("program:", json.dumps(p["templates"]), "ctx:", json.dumps(p["ctx"]))
-        print("unlimited:", res.get("unl"), "thr:", res.get("thr"), "model thr/total:", model.get(0, (None, None))[:2])
-        for run_, m in zip(res.get("runs", []), model.get(0, (0, 0, [], []))[2]):
+        print("unlimited:", res.get("unl"), "thr:", res.get("thr"), "model thr/total:", model.get("0", (None, None))[:2])
+        for run_, m in zip(res.get("runs", []), model.get("0", (0, 0, [], []))[2]):
             print("  engine", run_, " model", m)
     return 0
